@@ -417,3 +417,81 @@ func H_C02_seq() {
 	vfAssert(computeFreeSliceNum(b) == free, "C02.seq.walk")
 	vfCover("C02.seq.end")
 }
+
+// ---------------------------------------------------------------------------------------------
+// recycle-chain: a holder linked two or three of its slices into a message chain (as done() does)
+// and the peer recycles the chain through bufferManager.recycleBuffers (readBufferSlice + push per
+// element) while another thread recycles a slice of its own into the same class.
+func H_C02_chain() {
+	n := vfShape("slots", 4, 5)
+	clen := vfShape("chain", 2, 3)
+	mem := make([]byte, bufferManagerHeaderSize+bufferListHeaderSize+n*flStride)
+	bmA, err := createBufferManager([]*SizePercentPair{{flCap, 100}}, "", mem, 0)
+	vfAssert(err == nil && len(bmA.lists) == 1 && int(*bmA.lists[0].cap) == n, "C02.chain.setup")
+	bmB, err2 := mappingBufferManager("", mem, 0)
+	vfAssert(err2 == nil, "C02.chain.mapping")
+	// rotate the free list first so that the chain can start anywhere in the region (in
+	// particular: the region's last slot as a non-first chain element)
+	rot := vfShape("rotate", 0, n-1)
+	for i := 0; i < rot; i++ {
+		s, e := bmA.lists[0].pop()
+		vfAssert(e == nil, "C02.chain.rotate")
+		bmA.lists[0].push(s)
+	}
+	// the holder allocates the chain elements and one more slice that the other thread recycles
+	var chain [3]*bufferSlice
+	for i := 0; i < clen; i++ {
+		s, e := bmA.lists[0].pop()
+		vfAssert(e == nil, "C02.chain.alloc")
+		s.append(byte(i + 1))
+		chain[i] = s
+	}
+	extra, e3 := bmA.lists[0].pop()
+	if e3 != nil {
+		vfPrune() // not enough slots for a chain plus one
+	}
+	for i := 0; i < clen-1; i++ {
+		chain[i].nextSlice = chain[i+1]
+	}
+	for i := 0; i < clen; i++ {
+		chain[i].update()
+	}
+	root := chain[0].offsetInShm
+	freeBefore := int(*bmA.lists[0].size)
+	vfShared(mem, 4)
+	vfSpawn(func() {
+		s, rerr := bmB.readBufferSlice(root)
+		vfAssert(rerr == nil, "C02.chain.read")
+		bmB.recycleBuffers(s)
+	})
+	vfSpawn(func() { bmA.recycleBuffer(extra) })
+	vfJoin()
+	l := bmA.lists[0]
+	vfAssert(int(*l.size) == freeBefore+clen+1, "C02.chain.free-count-restored")
+	vfAssert(int(*l.size) == n, "C02.chain.full-capacity")
+	// walk: every slot exactly once, ends at tail
+	var seen [flMaxN]bool
+	off := *l.head
+	steps := 0
+	ok := true
+	for i := 0; i < flMaxN; i++ {
+		if off%flStride != 0 || off >= uint32(n*flStride) {
+			ok = false
+			break
+		}
+		if seen[off/flStride] {
+			ok = false
+			break
+		}
+		seen[off/flStride] = true
+		steps++
+		h := bufferHeader(l.bufferRegion[off : off+bufferHeaderSize])
+		if !h.hasNext() {
+			break
+		}
+		off = h.nextBufferOffset()
+	}
+	vfAssert(ok && steps == n && off == *l.tail, "C02.chain.walk-visits-every-slot-once")
+	vfAssert(computeFreeSliceNum(l) == n, "C02.chain.computeFreeSliceNum")
+	vfCover("C02.chain.end")
+}
